@@ -42,12 +42,13 @@ def shards(tier):
 
 
 def setup(ctx):
-    global ra, R, load_mod, md
+    global ra, R, load_mod, md, mio
     import mdtraj as _md
     from enspara.ra import ra as _ra
     from enspara.util import load as _l
+    from enspara.mpi import io as _mio
     from vf import monitor
-    ra, R, load_mod, md = _ra, _ra.RaggedArray, _l, _md
+    ra, R, load_mod, md, mio = _ra, _ra.RaggedArray, _l, _md, _mio
     ctx.h_save = monitor.attach(ra, 'save')
     ctx.h_load = monitor.attach(ra, 'load')
     ctx.h_lac = monitor.attach(load_mod, 'load_as_concatenated')
@@ -313,6 +314,40 @@ def run_trj(ctx, rng, idx):
                               '(procs=%d, completion order %s)' % (
                                   bad, procs, order))
                 return
+        # the MPI front end on a one-rank world is the same load
+        if idx % 3 == 0 and not many:
+            try:
+                kw2 = {'args': [dict(k) for k in call_args]} if \
+                    call_args is not None else dict(call_kw)
+                gl, sx = mio.load_trajectory_as_striped(files, processes=2,
+                                                        **kw2)
+                ctx.count('striped_single_rank_loads')
+                if [int(x) for x in gl] != ref_lens or not np.array_equal(
+                        sx, ref_xyz):
+                    ctx.violation('parallel-load.striped-single-rank',
+                                  'load_trajectory_as_striped on one rank '
+                                  'differs from the serial concatenation')
+            except Exception as e:  # noqa
+                ctx.crash('parallel-load.striped.raised', e)
+        # in-memory parallel concatenation
+        if idx % 3 == 1 and not many:
+            sel = None if rng.random() < 0.5 else 'index 0 to %d' % (
+                int(rng.integers(0, n_atoms)))
+            try:
+                tj = load_mod.concatenate_trjs([t for t in ref], atoms=sel,
+                                               n_procs=int(rng.integers(1, 5)))
+                ctx.count('concatenate_trjs_calls')
+                if sel is None:
+                    ex = ref_xyz
+                else:
+                    ai = ref[0].top.select(sel)
+                    ex = ref_xyz[:, ai]
+                if tj.xyz.shape != ex.shape or not np.array_equal(tj.xyz, ex):
+                    ctx.violation('parallel-load.concatenate_trjs',
+                                  'concatenate_trjs(atoms=%r) differs from '
+                                  'the in-order concatenation' % sel)
+            except Exception as e:  # noqa
+                ctx.crash('parallel-load.concatenate_trjs.raised', e)
         reordered = any(list(o) != sorted(o) for o in orders if o)
         if nfiles >= 3 and len(set(ref_lens)) > 1 and reordered:
             ctx.nontriv('trj', tuple(lens), fmt, mode, stride,
